@@ -42,6 +42,10 @@ var c20Opts = core.Opts{ID: "C20", Quick: 16, Thorough: 320}
 type c20Job struct {
 	Cycles int
 	A, B   config.Store
+	// Mutual: both routers list each other under connect (both dial).
+	// Recheck: the periodic connect check of A is triggered while the link is up.
+	// RestartB: B is stopped and a new B is constructed and started while A keeps running.
+	Mutual, Recheck, RestartB bool
 }
 
 type c20Cycle struct {
@@ -52,6 +56,10 @@ type c20Cycle struct {
 	PingOK               bool
 	WorkersSeen          []string
 	StopA, StopB         bool
+	RecheckOK            bool
+	StopB1               bool
+	NewErrB2, StartErrB2 string
+	RePeered, RePingOK   bool
 	GoBefore, GoAfter    int
 	Leftover             string
 }
@@ -158,6 +166,33 @@ func TestC20Child(t *testing.T) {
 				}
 			}
 		}
+		ping := func() bool {
+			for try := 0; try < 20; try++ {
+				notify, _, err := a.Router().PingPong.Send(b.Identity().IP, true, 0)
+				if err != nil {
+					time.Sleep(200 * time.Millisecond)
+					continue
+				}
+				select {
+				case <-notify:
+					return true
+				case <-time.After(time.Second):
+				}
+			}
+			return false
+		}
+		oneLinkEach := func() bool {
+			la, lb := a.Peering().GetLink(b.Identity().IP), b.Peering().GetLink(a.Identity().IP)
+			return la != nil && lb != nil && len(a.Peering().GetLinks()) == 1 && len(b.Peering().GetLinks()) == 1
+		}
+		if cyc.Linked && cyc.PingOK && job.Recheck {
+			// The connect check runs again (as it does every minute): with a mutual
+			// configuration A now dials B although they are linked already.
+			a.Peering().TriggerPeering()
+			b.Peering().TriggerPeering()
+			time.Sleep(400 * time.Millisecond)
+			cyc.RecheckOK = oneLinkEach() && ping()
+		}
 		// Which workers are running?
 		buf := make([]byte, 4<<20)
 		stack := string(buf[:runtime.Stack(buf, true)])
@@ -167,6 +202,35 @@ func TestC20Child(t *testing.T) {
 		} {
 			if strings.Contains(stack, marker) {
 				cyc.WorkersSeen = append(cyc.WorkersSeen, name)
+			}
+		}
+		if cyc.Linked && cyc.PingOK && job.RestartB {
+			cyc.StopB1 = b.Stop()
+			cfgB2, err := job.B.Parse()
+			if err != nil {
+				res.Fatal = "config B (restart): " + err.Error()
+				return
+			}
+			b, err = mycoria.New("verif", cfgB2)
+			if err != nil {
+				cyc.NewErrB2 = err.Error()
+				res.Cycles = append(res.Cycles, cyc)
+				a.Stop()
+				return
+			}
+			if err := b.Start(); err != nil {
+				cyc.StartErrB2 = err.Error()
+			}
+			deadline := time.Now().Add(20 * time.Second)
+			for time.Now().Before(deadline) {
+				if oneLinkEach() {
+					cyc.RePeered = true
+					break
+				}
+				time.Sleep(20 * time.Millisecond)
+			}
+			if cyc.RePeered {
+				cyc.RePingOK = ping()
 			}
 		}
 		cyc.StopB = b.Stop()
@@ -257,10 +321,16 @@ func TestC20(t *testing.T) {
 			A.Router.Listen = append(A.Router.Listen, fmt.Sprintf("tcp://127.0.0.1:%d", c20FreePort()))
 		}
 		B.Router.Connect = []string{fmt.Sprintf("tcp://127.0.0.1:%d", portA)}
-		if c.Bool("B.listens") {
-			B.Router.Listen = []string{fmt.Sprintf("tcp://127.0.0.1:%d", c20FreePort())}
+		mutual := false
+		if c.Chance("B.listens", 2, 3) {
+			portB := c20FreePort()
+			B.Router.Listen = []string{fmt.Sprintf("tcp://127.0.0.1:%d", portB)}
+			if c.Chance("mutual", 2, 3) {
+				A.Router.Connect = []string{fmt.Sprintf("tcp://127.0.0.1:%d", portB)}
+				mutual = true
+			}
 		}
-		job := c20Job{Cycles: c.Int("cycles", 1, 3), A: A, B: B}
+		job := c20Job{Cycles: c.Int("cycles", 1, 3), A: A, B: B, Mutual: mutual, Recheck: c.Chance("recheck", 2, 3), RestartB: c.Chance("restartB", 1, 2)}
 		jobPath := filepath.Join(work, "job.json")
 		data, _ := json.Marshal(job)
 		if err := os.WriteFile(jobPath, data, 0o644); err != nil {
@@ -276,7 +346,8 @@ func TestC20(t *testing.T) {
 		}
 		desc := fmt.Sprintf("universe=%q secret=%v A{lite=%v stub=%v isolate=%v services=%d friends=%d state=%v api=%v listeners=%d} B{lite=%v stub=%v state=%v api=%v listens=%v} cycles=%d",
 			universe, secret != "", A.Router.Lite, A.Router.Stub, A.Router.Isolate, len(A.ServiceConfigs), len(A.FriendConfigs), A.System.StatePath != "", A.System.APIListen != "", len(A.Router.Listen),
-			B.Router.Lite, B.Router.Stub, B.System.StatePath != "", B.System.APIListen != "", len(B.Router.Listen) > 0, job.Cycles)
+			B.Router.Lite, B.Router.Stub, B.System.StatePath != "", B.System.APIListen != "", len(B.Router.Listen) > 0, job.Cycles) +
+			fmt.Sprintf(" mutual=%v recheck=%v restartB=%v", job.Mutual, job.Recheck, job.RestartB)
 		c.Note("%s", desc)
 		if runErr != nil || rerr != nil {
 			tail := string(outb)
@@ -319,6 +390,23 @@ func TestC20(t *testing.T) {
 			}
 			if !cy.PingOK {
 				c.Fatalf("%s: ping between the peered routers was not answered", where)
+			}
+			if job.Recheck && !cy.RecheckOK {
+				c.Fatalf("%s: after the connect check ran again the routers are not linked by exactly one working link each any more", where)
+			}
+			if job.RestartB {
+				if !cy.StopB1 {
+					c.Fatalf("%s: Stop of B (before its restart) reported failure", where)
+				}
+				if cy.NewErrB2 != "" || cy.StartErrB2 != "" {
+					c.Fatalf("%s: constructing / starting B again failed: %q %q", where, cy.NewErrB2, cy.StartErrB2)
+				}
+				if !cy.RePeered {
+					c.Fatalf("%s: after B was stopped and started again the two routers did not peer again within 20 s", where)
+				}
+				if !cy.RePingOK {
+					c.Fatalf("%s: ping after re-peering was not answered", where)
+				}
 			}
 			if !cy.StopA || !cy.StopB {
 				c.Fatalf("%s: Stop reported failure (A=%v B=%v)", where, cy.StopA, cy.StopB)
